@@ -4,6 +4,7 @@ CONSTANTS
  MaxItems = 2
  MaxTicket = 8
  MaxStale = 0
+ MaxExh = 0
  AllowRemove = FALSE
  Dev = {"pending_not_put_back"}
 INVARIANTS NoStreamLost
